@@ -1276,7 +1276,14 @@ fn c09_monitor(own: u16, recv_op: Operation, items: &[Vec<u8>], trace: &[Message
             continue;
         }
         match trace.get(i) {
-            None => continue,
+            None => {
+                // every chunk went out and was met with silence, a further reply was on offer, and yet the controller
+                // stopped: the transfer is not complete
+                if i < script.len() {
+                    return Some(format!("all {} chunks were sent and accepted, but the chunk count was never announced", sent));
+                }
+                continue;
+            }
             Some(Message::DataChunksSent(n)) => {
                 if n.0 as u32 != sent {
                     return Some(format!("announced {} chunks but sent {}", n.0, sent));
@@ -1290,7 +1297,12 @@ fn c09_monitor(own: u16, recv_op: Operation, items: &[Vec<u8>], trace: &[Message
         }
         i += 1;
         match trace.get(i) {
-            None => continue,
+            None => {
+                if i < script.len() {
+                    return Some("the chunk count was announced and accepted, but the result was never asked for".to_string());
+                }
+                continue;
+            }
             Some(m) if *m == Message::QueryState(a) => {}
             Some(m) => return Some(format!("expected the result query after the count, got {}", str_msg(m))),
         }
@@ -1469,8 +1481,16 @@ fn gen_c09(ctx: &mut Ctx) {
             let b = bus.borrow();
             b.script.clone()
         };
-        let (trace, _outcome, _) = run_ct(&op, &script);
+        let (trace, outcome, _) = run_ct(&op, &script);
         let line = format!("CT {} {}", op, script.join(" "));
+        // a far side that cooperates (at most two failure reports, then 'received') must see the whole transfer and a
+        // successful call; with three failure reports the call gives up with a protocol error
+        {
+            let want_done = fails < 3;
+            let good = if want_done { outcome.starts_with("DONE") } else { outcome == "PROTO" };
+            let short = if line.len() > 600 { format!("{}...", &line[..600]) } else { line.clone() };
+            ctx.monitor(good, "C09-transfer-shape", &short, &format!("a cooperative sign ({} failure reports) but the call ended {} after {} messages", fails, outcome, trace.len()));
+        }
         ctx.case(line.clone(), true, &format!("{}-fails{}", if is_cfg { "configure" } else { "send_pages" }, fails));
         let sc: Vec<Reply> = script.iter().map(|s| reply_of_str(s)).collect();
         let recv = if is_cfg { Operation::ReceiveConfig } else { Operation::ReceivePixels };
